@@ -379,6 +379,89 @@ def h_public_only(ctx):
     return Outcome(f"public-only:{'clean' if not vs else 'LEAK'}", vs, nontrivial=(kt, arg, mode, tuple(ctx.choices)))
 
 
+# ------------------------------------------------------------------ E2: exports of several keys, one after another in one process
+HIST_KINDS = ["oct16", "rsa1024", "P-256", "Ed25519", "X25519"]
+
+
+class ExportHistories:
+    """Keys of every type, made from their native encodings with ONE parameters dict the caller keeps, are exported (privately,
+    publicly, in a set, as the epk of an encryption, as a public-only twin) in every order; no public output may carry private
+    material of ANY of the keys.  Fresh import of joserfc per transition: class-level state of the key classes is part of the state."""
+    fresh_import = True
+    replay_id = {"cls": "ExportHistories"}
+
+    def __init__(self):
+        self.MENU = [("public-jwk", k) for k in HIST_KINDS] + [("private-jwk", k) for k in HIST_KINDS] + [("public-jwks", "all")] + \
+                    [("ecdh-es-encrypt", k) for k in ("P-256", "X25519")] + [("public-only-twin", k) for k in HIST_KINDS[1:]]
+        self._ndl = None
+
+    def needles_all(self):
+        if self._ndl is None:
+            self._ndl = [(f"{k}.{m}", forms) for k in HIST_KINDS for m, forms in needles(scen.key(k))]
+        return self._ndl
+
+    def make(self):
+        shared = {"x5t": "shared-by-all-keys"}
+        keys = {}
+        for k in HIST_KINDS:
+            jwk = scen.key(k)
+            keys[k] = A.jkey(jwk, "bytes" if jwk["kty"] == "oct" else "pem", params=shared)
+        return {"keys": keys, "params": shared}
+
+    def apply(self, st, op):
+        from joserfc import jwe
+        from joserfc.jwk import KeySet
+        what, k = op
+        keys = st["keys"]
+        if what == "private-jwk":
+            call(lambda: keys[k].as_dict(private=True))
+            return {"op": op, "public": None}
+        if what == "public-jwk":
+            r = call(lambda: keys[k].as_dict(private=False))
+        elif what == "public-jwks":
+            r = call(lambda: KeySet([keys[x] for x in HIST_KINDS[1:]]).as_dict(private=False))
+        elif what == "ecdh-es-encrypt":
+            pub = A.jkey(rjwk.public_of(scen.key(k, 3)), "dict")
+            r = call(jwe.encrypt_compact, {"alg": "ECDH-ES", "enc": "A128GCM"}, b"x", pub)
+            if r.ok:
+                r.value = json.loads(b64.dec(r.value.split(".")[0]))
+        else:
+            jwk = scen.key(k)
+            twin = A.jkey(jwk, "pem", private=False, params=st["params"])
+            r = call(lambda: [twin.as_dict(), twin.as_dict(private=False), KeySet([twin]).as_dict()])
+        return {"op": op, "public": r.value if r.ok else None, "error": None if r.ok else type(r.exc).__name__}
+
+    def canon(self, st):
+        from ..history import canon_state
+        return canon_state(st["keys"], st["params"], prefix="joserfc.rfc7517")
+
+    def bucket(self, obs):
+        return obs["op"][0] + (":error" if obs.get("error") else "")
+
+    def check(self, hist, op, obs, st):
+        out = obs["public"]
+        if out is None:
+            return []
+        vs = []
+        kind = op[1]
+        for path, m in jwk_private_members(out):
+            vs.append(viol(f"a public output carries the private member {m!r} after other keys were exported [{op[0]}]", f"history {list(hist)} then {op}: at {path or '/'}"))
+        for m in leaks(out, self.needles_all()):
+            if op == ("public-jwk", "oct16") or m.startswith("oct16") and op[0] == "public-jwk" and kind == "oct16":
+                continue
+            vs.append(viol(f"a public output contains the octets of a private parameter after other keys were exported [{op[0]}]", f"history {list(hist)} then {op}: {m}"))
+        return vs
+
+
+def make_model(desc):
+    return ExportHistories()
+
+
+def export_histories(tier):
+    from ..history import bfs
+    return bfs(ExportHistories(), 3 if tier == "thorough" else 2, budget_s=1500 if tier == "thorough" else 150)
+
+
 _st = Part("needle-selftest", h_needle_selftest, split_depth=1)
 _pu = Part("public-only-keys", h_public_only, split_depth=2)
 _pu.single_bucket_ok = True
@@ -386,4 +469,5 @@ _st.single_bucket_ok = True
 PARTS = [
     Part("outputs", h_outputs, split_depth=2, budget={"quick": 120, "thorough": 1200}),
     _st, _pu,
+    Part("export-histories", custom=export_histories, engine="E2"),
 ]
